@@ -36,10 +36,14 @@ def zip_nonzero_hook(st, state):
     non-zero entries (same sum), A the matching keys."""
     if not (isinstance(st, ast.Assign) and len(st.targets) == 1 and isinstance(st.targets[0], ast.Tuple)
             and len(st.targets[0].elts) == 2 and isinstance(st.value, ast.Call) and src(st.value.func) == 'zip'
-            and len(st.value.args) == 1 and isinstance(st.value.args[0], ast.Starred)
-            and isinstance(st.value.args[0].value, ast.ListComp)):
+            and len(st.value.args) == 1 and isinstance(st.value.args[0], ast.Starred)):
         return None
     lc = st.value.args[0].value
+    if isinstance(lc, ast.Name):
+        from ..resolve import path_defs
+        lc = path_defs(state).get(lc.id)        # the list of pairs built into a local first
+    if not isinstance(lc, ast.ListComp):
+        return None
     if len(lc.generators) != 1:
         return None
     g = lc.generators[0]
